@@ -45,7 +45,7 @@ def run_program(su, body, td, c1, u0, u1, mm, fx, nh, pay0, pay1):
     payload = {}
     for k, n in enumerate(user_names):
         payload[n] = [pay0, pay1] if k == 0 else [pay1]
-    fx_detail_name = {0: None, 1: "fx", 2: "x", 3: "fx", 4: "x"}[fx]
+    fx_detail_name = {0: None, 1: "fx", 2: "x", 3: "fx", 4: "x", 5: "fx"}[fx]
 
     class Fx(fixtures.Fixture):
         def _setUp(self):
@@ -53,8 +53,14 @@ def run_program(su, body, td, c1, u0, u1, mm, fx, nh, pay0, pay1):
             if fx == 4:
                 # a second detail whose name is what the first one would be renamed to on a collision
                 self.addDetail(fx_detail_name + "-1", text_content("fixture-detail-2"))
-            if fx == 3:
+            if fx == 5:
+                # the fixture's own clean-up fails as well while setUp unwinds: MultipleExceptions with 3 constituents
+                self.addCleanup(self._boom)
+            if fx in (3, 5):
                 raise RuntimeError("fixture setUp failed")
+
+        def _boom(self):
+            raise RuntimeError("fixture clean-up failed")
 
     def body_hook(case):
         for k in range(nh):
@@ -93,7 +99,7 @@ def run_program(su, body, td, c1, u0, u1, mm, fx, nh, pay0, pay1):
     n_exc = 0
     if ran_body:
         # the body hook runs before behave(): a failing fixture or assertThat aborts the body there
-        if fx == 3:
+        if fx in (3, 5):
             body_aborted_by = "fixture"
         elif mm == 2:
             body_aborted_by = "assertThat"
@@ -102,8 +108,8 @@ def run_program(su, body, td, c1, u0, u1, mm, fx, nh, pay0, pay1):
             continue
         if st == "body" and body_aborted_by:
             if body_aborted_by == "fixture":
-                n_tb += 2        # MultipleExceptions(RuntimeError, SetupError)
-                n_exc += 2
+                n_tb += 2 if fx == 3 else 3        # MultipleExceptions(RuntimeError, [clean-up RuntimeError,] SetupError)
+                n_exc += 2 if fx == 3 else 3
             else:
                 n_tb += 1        # MismatchError
                 n_exc += 1
@@ -148,7 +154,7 @@ def run_program(su, body, td, c1, u0, u1, mm, fx, nh, pay0, pay1):
         # exceptions raised after the handlers were registered: body (incl. its abort), tearDown, cleanup
         n_after = 0
         if body_aborted_by == "fixture":
-            n_after += 2
+            n_after += 2 if fx == 3 else 3
         elif body_aborted_by == "assertThat":
             n_after += 1
         else:
@@ -165,7 +171,7 @@ def h_details(su: int, body: int, td: int, c1: int, u0: int, u1: int, mm: int, f
               pay0: bytes, pay1: bytes, mf: int, mode: int) -> bool:
     """
     pre: 0 <= su < 8 and 0 <= body < 8 and 0 <= td < 8 and 0 <= c1 < 8 and 0 <= u0 < 6 and 0 <= u1 < 6
-    pre: 0 <= mm < 3 and 0 <= fx < 5 and 0 <= nh < 3 and len(pay0) <= 2 and len(pay1) <= 1 and 0 <= mf < 5
+    pre: 0 <= mm < 3 and 0 <= fx < 6 and 0 <= nh < 3 and len(pay0) <= 2 and len(pay1) <= 1 and 0 <= mf < 5
     pre: 0 <= mode < 2
     post: _
     """
@@ -177,7 +183,7 @@ def h_details(su: int, body: int, td: int, c1: int, u0: int, u1: int, mm: int, f
             v["su"] = v["td"] = v["c1"] = 0
             v["body"] = ch.sel("body", body, len(KINDS))
             v["u0"], v["u1"] = ch.sel("u0", u0, 6), ch.sel("u1", u1, 6)
-            v["mm"], v["fx"] = ch.sel("mm", mm, 3), ch.sel("fx", fx, 5)
+            v["mm"], v["fx"] = ch.sel("mm", mm, 3), ch.sel("fx", fx, 6)
             v["nh"] = 0
             p0, p1 = pay0, pay1
         else:
@@ -202,7 +208,7 @@ def h_details(su: int, body: int, td: int, c1: int, u0: int, u1: int, mm: int, f
                 v["u0"] = [5, 1][ch.sel("u0", u0, 2)]
                 v["u1"] = 5
                 v["mm"], v["nh"] = ch.sel("mm", mm, 3), ch.sel("nh", nh, 3)
-                v["fx"] = [0, 3][ch.sel("fx", fx, 2)]
+                v["fx"] = [0, 3, 5][ch.sel("fx", fx, 3)]
             else:
                 v["u0"] = v["u1"] = 5
                 v["mm"] = v["fx"] = v["nh"] = 0
@@ -228,7 +234,7 @@ def _shards(tier):
 
 def _describe(su, body, td, c1, u0, u1, mm, fx, nh, pay0, pay1, mf, mode):
     if mode == 1:
-        u0, u1, fx, pay0, pay1 = [5, 1][u0 % 2], 5, [0, 3][fx % 2], b"p", b"q"
+        u0, u1, fx, pay0, pay1 = [5, 1][u0 % 2], 5, [0, 3, 5][fx % 3], b"p", b"q"
         if su:
             body = td = mm = fx = nh = 0
             u0 = 5
@@ -238,7 +244,7 @@ def _describe(su, body, td, c1, u0, u1, mm, fx, nh, pay0, pay1, mf, mode):
     o["program"] = dict(setUp=P.KIND_NAMES[KINDS[su]], body=P.KIND_NAMES[KINDS[body]], tearDown=P.KIND_NAMES[KINDS[td]],
                         cleanup=P.KIND_NAMES[KINDS[c1]], user_details=[UNAMES[u] for u in (u0, u1) if u < 5],
                         mismatch=["none", "expectThat", "assertThat"][mm],
-                        fixture=["none", "detail fx", "detail x", "setUp fails", "details x and x-1"][fx], handlers=nh)
+                        fixture=["none", "detail fx", "detail x", "setUp fails", "details x and x-1", "setUp and its own clean-up fail"][fx], handlers=nh)
     return o
 
 
@@ -249,7 +255,7 @@ HARNESSES = [
                              "stages, concrete payloads, user detail 'traceback' or none, fixture none or failing. In both the body first attaches 0..2 "
                              "user details named from {x, traceback, traceback-1, 'Failed expectation', e-acute} (binary content, symbolic "
                              "bytes in 1..2 chunks of length <= 2 / <= 1), optionally uses a fixture carrying a detail (own name, colliding "
-                             "name, two details named x and x-1, or failing setUp), optionally expectThat / assertThat with a mismatch carrying two details (colliding "
+                             "name, two details named x and x-1, failing setUp, or failing setUp whose own clean-up fails too), optionally expectThat / assertThat with a mismatch carrying two details (colliding "
                              "names), and registers 0..2 addOnException handlers",
                     "thorough": "at most 3 raising stages"},
             rule="non-trivial = something attached or raised", sym=("pay0", "pay1"),
